@@ -121,7 +121,7 @@ class Ctx(object):
             self.known_hits[mech] = (c + 1, m)
             return
         # keep at most 20 replay files
-        if len(self.violations) < 20:
+        if len(self.violations) < 20 or mech not in [v[0] for v in self.violations]:
             path = self.write_replay({'mechanism': mech, 'message': msg, 'case': replay_data})
         else:
             path = self.violations[-1][2]
@@ -132,6 +132,9 @@ class Ctx(object):
         (kind, top cffi frame).  deciding=True turns each into a violation."""
         for kind, frame, block in split_reports(text):
             key = '%s@%s' % (kind, frame)
+            if is_benign(kind, frame, block):
+                self.count('benign_sanitizer_reports_filtered')
+                continue
             self.san_reports[key] = self.san_reports.get(key, 0) + 1
             if deciding:
                 self.violation('%s:%s' % (mech_prefix, key), block[:1500], case)
@@ -215,6 +218,23 @@ def _top_cffi_frame(block):
     return m.group(1) if m else '?'
 
 
+# Reports that are stricter than what correct code legitimately does
+# (justified in DESIGN.md section 2.2); everything else is kept.
+_BENIGN = [
+    # &ctx->typenames->name with a NULL table and zero entries: the address is
+    # formed by search_sorted() but the loop body never runs.
+    (re.compile(r"ubsan:member access within null pointer of type 'const struct _cffi_"),
+     re.compile(r'parse_c_type\.c:')),
+]
+
+
+def is_benign(kind, frame, block):
+    for rk, rf in _BENIGN:
+        if rk.search(kind) and rf.search(frame):
+            return True
+    return False
+
+
 def split_reports(text):
     """Yield (kind, frame, block) for each ASan/UBSan/TSan report block."""
     if not text:
@@ -231,7 +251,7 @@ def split_reports(text):
         if k == 'ubsan':
             msg = re.sub(r'-?\d+', 'N', m.group(4))
             msg = re.sub(r'0x[0-9a-f]+', 'P', msg)
-            kind = 'ubsan:' + msg[:60]
+            kind = 'ubsan:' + msg[:90]
             frame = '%s:%s' % (os.path.basename(m.group(1)), m.group(2))
         elif k == 'asan':
             kind = 'asan:' + m.group(1)
@@ -330,7 +350,11 @@ def run_cases(ctx, modname, setup, cases, variant='asan', nproc=None, timeout=60
     if not cases:
         return []
     build.backend(variant)
-    nproc = nproc or NPROC
+    if nproc is None:
+        # ASan'd interpreters do not scale on this VM (page-fault handling is
+        # serialised system-wide: 16 parallel children take 16x one child), so
+        # sanitized work is kept in few processes; plain children scale ~4x.
+        nproc = int(os.environ.get('VERIF_ASAN_NPROC', '2')) if variant == 'asan' else NPROC
     n = len(cases)
     if shard_size is None:
         shard_size = max(1, (n + nproc - 1) // nproc)
